@@ -510,7 +510,36 @@ pub fn check(id: &str, tier: Tier) -> i32 {
     let mut replay_paths = Vec::new();
     if let Some((i, sub, v)) = new_violations.first().cloned() {
         // regenerate, minimise, write replay, verify in a fresh process
-        let rf = crate::minimise::build_replay(p.as_ref(), seed, i, sub, tier, &v);
+        // a panic while minimising (an oracle tripping over a shrunk scenario) must not take the
+        // check down: fall back to the unminimised case
+        let rf = match std::panic::catch_unwind(std::panic::AssertUnwindSafe(|| crate::minimise::build_replay(p.as_ref(), seed, i, sub, tier, &v))) {
+            Ok(r) => r,
+            Err(_) => {
+                harness_errors.push(format!("minimiser panicked on run {i}.{sub}; replay written unminimised"));
+                let mut sc = p.generate(seed, i, tier);
+                if sub > 0 {
+                    if let Ok(base) = p.run(&sc) {
+                        if let Some(x) = p.sweep(&sc, &base, tier).get(sub as usize - 1) {
+                            sc = x.clone();
+                        }
+                    }
+                }
+                let (line, _) = evaluate(p.as_ref(), &sc, i, sub, false);
+                line.violations.iter().find(|x| x.clause == v.clause).cloned().map(|viol| ReplayFile {
+                    property: id.into(),
+                    seed,
+                    idx: i,
+                    sub,
+                    tier: tier.name().into(),
+                    violation: viol,
+                    digest: line.digest.clone(),
+                    minimised: false,
+                    original_steps: sc.steps.len(),
+                    original_faults: 0,
+                    scenario: sc,
+                })
+            }
+        };
         match rf {
             Some(rf) => {
                 let path = write_replay(&rf);
